@@ -7,7 +7,7 @@ field B. A function that compacts one side with `retain` and merely truncates th
 with somebody else's entry. An indexed store into the other side (`b[i] = ..`, a hand-written compaction) is accepted
 as matching anything.
 """
-from vlib.mir import Fn, op_local, op_place
+from vlib.mir import Fn, op_local, op_place, rv_operands
 from rules.queue import field_of_receiver
 
 SHAPE = ("clear", "truncate", "retain", "retain_mut", "swap_remove", "remove", "drain", "pop", "dedup", "dedup_by",
@@ -179,3 +179,133 @@ def clear_all(ctx, fx, files, rule="R-CLEAR"):
     ctx.instances[rule + ".fields"] = total
     ctx.instance(rule + ".structs", len(seen))
     return total
+
+
+# ------------------------------------------------------------------ R-PARALLEL.build / R-MARKCOUNT (GoldHashMap)
+def companion_built_per_entry(ctx, fx, file, struct_path, companion, rule="R-PARALLEL.build", only=None):
+    """A function that stores a locally built Vec into the companion field (`hash_cache = Some(cache)`) and fills that Vec
+    with `push` inside a loop pushes on every iteration: the companion is indexed by the slot number of the primary vector,
+    so an iteration that skips its push shifts every later value to a lower slot."""
+    pref = "." + struct_path + "::" + companion
+    n = 0
+    for fid in fx.fn_ids(file):
+        if "::tests::" in fid or "{closure" in fid or (only and not only(fid)):
+            continue
+        fn = Fn(fx.raw(fid))
+        stores = [st for loc, st in fn.iter_locs() if st[0] == "a" and len(st[1]) >= 2 and st[1][-1] == pref]
+        if not stores:
+            continue
+        src = set()
+        for st in stores:
+            roots = [op_local(o) for o in rv_operands(st[2]) if op_local(o) is not None]
+            if roots:
+                src |= set(fn.backslice(roots)[0]) | set(roots)
+        for b, c in fn.calls():
+            if c["f"].rsplit("::", 1)[-1] != "push" or "Vec" not in c["f"] or not c["a"]:
+                continue
+            r = op_local(c["a"][0])
+            if r is None:
+                continue
+            rl = set(fn.backslice([r])[0]) | {r}
+            # the receiver is a reference to a local that later flows into the companion field
+            if not any(l in src and fn.ty(l).startswith("std::vec::Vec<") for l in rl):
+                continue
+            heads = [hb for hb, hc in fn.calls() if hc["f"].endswith("::next") and "Iterator" in hc["f"] and
+                     b in fn.reachable_from(fn.succ(hb)) and hb in fn.reachable_from(fn.succ(b))]
+            for hb in heads:
+                n += 1
+                ctx.analysed_fns.add(fid)
+                skip = hb in fn.reachable_from(fn.succ(hb), avoid=[b])
+                ctx.obligation(rule, fid, "%s pushed on every iteration" % companion, not skip,
+                               sample={"fn": fid, "push_line": c["ln"], "loop_head_line": fn.term(hb)[1]["ln"]})
+                if skip:
+                    ctx.violation(rule, fid, "%s built with a conditional push" % companion,
+                                  "the loop at line %s can start its next iteration without passing the push at line %s: the vector that "
+                                  "becomes %s is indexed by slot number, so every value after a skipped slot lands one slot too low"
+                                  % (fn.term(hb)[1]["ln"], c["ln"], companion), fn.file, c["ln"])
+    ctx.instance(rule + ".loops", n)
+    return n
+
+
+def _mark_locs(fn, link_elem, marker_ty, must):
+    out = []
+    for loc, st in fn.iter_locs():
+        if st[0] == "a" and len(st[1]) >= 2 and st[1][-1] == link_elem and st[2][0] == "use" and st[2][1][0] == "k" and \
+                st[2][1][2] == marker_ty:
+            out.append(loc)
+        elif st[0] == "call" and st[1]["f"] in must and st[1]["f"] != fn.id:
+            out.append(loc)
+    return out
+
+
+def _covered(fn, loc, marks):
+    """a mark dominates loc, or every path from loc to a normal return passes a mark"""
+    if any(fn.loc_dominates(m, loc) for m in marks):
+        return True
+    b, i = loc
+    mb = {}
+    for x, y in marks:
+        mb.setdefault(x, []).append(y)
+    if any(y > i for y in mb.get(b, [])):
+        return True
+    exits = set(fn.exits())
+    if b in exits:
+        return False
+    return not (fn.reachable_from(fn.succ(b), avoid=set(mb)) & exits)
+
+
+def deleted_count_marks(ctx, fx, file, struct_path, counter, link_elem, marker_ty, rule="R-MARKCOUNT", only=None):
+    """Wherever the count of deleted slots is incremented, the slot is marked deleted (a constant of the link type stored into
+    Entry::link) before it or on every path after it - in the function itself, or around each of its call sites in the file.
+    len() = entries - count and the iterator / relink skip exactly the marked slots: a counted but unmarked slot is still
+    yielded and is linked back in by the next rehash."""
+    cpref = "." + struct_path + "::" + counter
+    fns = {}
+    for fid in fx.fn_ids(file):
+        if "::tests::" in fid or "{closure" in fid or (only and not only(fid)):
+            continue
+        fns[fid] = Fn(fx.raw(fid))
+    # helpers that mark on every path
+    must = set()
+    while True:
+        grew = False
+        for fid, fn in fns.items():
+            if fid in must:
+                continue
+            ml = _mark_locs(fn, link_elem, marker_ty, must)
+            if ml and not (fn.reachable_from([0], avoid={b for b, _ in ml}) & set(fn.exits())) or any(b == 0 for b, _ in ml):
+                must.add(fid)
+                grew = True
+        if not grew:
+            break
+    n = 0
+    for fid, fn in sorted(fns.items()):
+        incs = []
+        for loc, st in fn.iter_locs():
+            if st[0] == "a" and len(st[1]) >= 2 and st[1][-1] == cpref:
+                roots = [op_local(o) for o in rv_operands(st[2]) if op_local(o) is not None]
+                _, sites = fn.backslice(roots) if roots else ((), ())
+                if any(k == "assign" and pl[2][0] == "bin" and pl[2][1].startswith("Add") for _, k, pl in sites):
+                    incs.append((loc, st[3]))
+        if not incs:
+            continue
+        marks = _mark_locs(fn, link_elem, marker_ty, must)
+        ctx.analysed_fns.add(fid)
+        for loc, ln in incs:
+            n += 1
+            ok = _covered(fn, loc, marks)
+            where = "in the function"
+            if not ok:
+                # the marking may have been left to the callers
+                callers = [(g, (b, len(g.stmts(b))), c) for g in fns.values() if g.id != fid for b, c in g.calls() if c["f"] == fid]
+                if callers and all(_covered(g, cl, _mark_locs(g, link_elem, marker_ty, must)) for g, cl, c in callers):
+                    ok, where = True, "around every call site"
+            ctx.obligation(rule, fid, "slot marked deleted wherever %s is incremented" % counter, ok,
+                           sample={"fn": fid, "line": ln, "marks": len(marks), "where": where})
+            if not ok:
+                ctx.violation(rule, fid, "%s incremented without marking the slot on every path" % counter,
+                              "%s is incremented at line %s but the deleted marker is stored into Entry::link on some paths only (and "
+                              "not around every call site): the slot is counted as deleted yet still yielded by iter() and linked back "
+                              "in by the next rehash" % (counter, ln), fn.file, ln)
+    ctx.instance(rule + ".increments", n)
+    return n
